@@ -6,6 +6,8 @@
 //! around [sequence::Sequence] - which is responsible for restarting a
 //! dropped connection and terminating it on errors.s
 use crate::config::Config;
+#[cfg(feature = "zvt_verif")]
+use crate::verif_hook::tokio;
 
 use anyhow::{bail, Result};
 use async_stream::stream;
